@@ -98,7 +98,11 @@ def check_amount(case, ctx: Ctx):
         require(F(m.frequencies[gi]) == f, "merged_frequency", lambda: f"cell {idx}: {m.frequencies[gi]!r} want {float(f)}")
         require(F(m.errors2[gi]) == e, "merged_errors2", lambda: f"cell {idx}: {m.errors2[gi]!r} want {float(e)}")
     require(after["missed"] == before["missed"] or snap_equal({"m": after["missed"]}, {"m": before["missed"]}), "missed_changed", f"{after['missed']} vs {before['missed']}")
-    require(after["dtype"] == before["dtype"] == after["freq_dtype"] == after["err_dtype"], "dtype_changed", f"{after['dtype']}/{after['freq_dtype']} vs {before['dtype']}")
+    if spec.get("narrow_overflow"):
+        # sums that leave the narrow type: the result may (must) be wider, but consistently so
+        require(after["dtype"] == after["freq_dtype"] == after["err_dtype"] and np.dtype(after["dtype"]).kind == "i", "dtype_changed", f"{after['dtype']}/{after['freq_dtype']}/{after['err_dtype']}")
+    else:
+        require(after["dtype"] == before["dtype"] == after["freq_dtype"] == after["err_dtype"], "dtype_changed", f"{after['dtype']}/{after['freq_dtype']} vs {before['dtype']}")
     tot = sum((F(x) for x in hgen.flat(spec["freq"])), Fraction(0))
     require(F(m.total) == tot, "total", f"{m.total} vs {float(tot)}")
     require(after["name"] == before["name"] and after["axis_names"] == before["axis_names"], "metadata_changed", "")
@@ -125,6 +129,14 @@ def amount_cases(draw, tier="quick"):
     amount = draw(st.one_of(st.integers(1, 5), st.integers(1, 20), st.sampled_from([1.5, 2.5, 0.5]),
                             # almost integral is not integral
                             st.sampled_from([2.00001, 2 + 1e-9, math.nextafter(2.0, 3.0), math.nextafter(3.0, 2.0), 1.999995, 0.3 / 0.1, 1 + 1e-12])))
+    if spec["dtype"] == "int32" and draw(st.integers(0, 2)) == 0:
+        # every bin fits its narrow type, the merged runs do not
+        def big(x):
+            return [big(y) for y in x] if isinstance(x, list) else draw(st.sampled_from([2 ** 30, 2 ** 30 + 7, 2 ** 31 - 1, 5, 0]))
+
+        spec["freq"] = big(spec["freq"])
+        spec["err2"] = None
+        spec["narrow_overflow"] = True
     if d == 1 and spec["dtype"] == "int64" and draw(st.integers(0, 3)) == 0:
         # counts beyond 2**53: sums must stay exact integers (no detour through floating point)
         spec["freq"] = [draw(st.sampled_from([2 ** 53 + 1, 2 ** 53 + 3, 2 ** 55 + 1, 7, 0, 2 ** 54 - 1])) for _ in spec["freq"]]
